@@ -16,8 +16,8 @@ files=$(git diff --stat | tail -1)
 T=$(go test -vet=off -count=1 ./... 2>&1 | grep -v "no test files" | grep -v "^ok" | head -3)
 if [ -n "$T" ]; then t1=FAIL; else t1=pass; fi
 echo "$D: repo-tests=$t1 | $files"
-cd /verif
+cd ${VERIF_DIR:-/verif}
 for c in "$@"; do
-  out=$(VERIF_REPO=$W VERIF_WORK=/verif/.work/refac_$(basename $W) timeout 1500 ./vcheck $c 2>&1); rc=$?
+  out=$(VERIF_REPO=$W timeout 1500 ./vcheck $c 2>&1); rc=$?
   echo "   $c rc=$rc $(echo "$out" | grep -c '^VIOLATION') viol | $(echo "$out" | grep -A1 '^VIOLATION\|INFRA' | grep -v '^VIOLATION' | head -1 | cut -c1-200)"
 done
